@@ -192,3 +192,22 @@ Example C07_ex_refusals :
   /\ snd (step ex_env (run ex_env ex_ops) (OAttach ["g"] "zz" None "x" ex_all)) = RRef WUnknown
   /\ snd (step ex_env (run ex_env ex_ops) (OAttach ["g"] "aa" (Some (3, (0, 0))%N) "x" ex_all)) = RRef WUnknown.
 Proof. repeat split; vm_compute; reflexivity. Qed.
+
+(** Non-vacuity for group move / copy with descendants: [g/d] carries an object; [g] is moved
+    to [h] and a new [g/d] is created; the fresh node holds nothing, the object is at [h/d];
+    a copy has an equal object under a fresh uuid. *)
+Definition ex_ops_mv : list op :=
+  [OMk [] "g" true; OMk ["g"] "d" false; OAttach ["g"; "d"] "bb" (Some v100) "b" ex_all;
+   OMove ["g"] [] "h"; OMk [] "g" true; OMk ["g"] "d" true; OCopy ["h"] ["g"; "d"] "k" false].
+
+Example C07_ex_group_move_recreate :
+  let st := run ex_env ex_ops_mv in
+  get ex_env st ["g"; "d"] "bb" None = GNone
+  /\ get ex_env st ["h"; "d"] "aa" None = GFound (mkmobj ("bb", v100) 0%N "b") ("aa", v100)
+  /\ get ex_env st ["g"; "d"; "k"; "d"] "bb" None = GFound (mkmobj ("bb", v100) 1%N "b") ("bb", v100)
+  /\ query st [] "aa" None = [["h"; "d"]; ["g"; "d"; "k"; "d"]]
+  /\ query st ["g"] "bb" None = [["g"; "d"; "k"; "d"]]
+  /\ snd (step ex_env st (OAttach ["g"; "d"] "bb" (Some v100) "x" ex_all)) = ROk
+  /\ snd (step ex_env st (ODetach ["g"; "d"] "bb")) = RRef WNoObj
+  /\ moved (OMove ["h"] [] "m") st ["h"; "d"] = ["m"; "d"].
+Proof. repeat split; vm_compute; reflexivity. Qed.
